@@ -219,7 +219,14 @@ class Sub(SObj):
         if ov is not None:
             return ov
         if name in REAL_METHODS:
-            return InlineFn('%s:_Substring.%s' % (MOD, name), self.world.globals)
+            ref = '%s:_Substring.%s' % (MOD, name)
+            inl = InlineFn(ref, self.world.globals)
+
+            def real(ctx, *a, **k):
+                from pyvc import extract
+                ctx.interp.index_loops(extract.get(ref).node)  # loops of the inlined body may be matched by the contract's loop invariants (by header text)
+                return inl(ctx, *a, **k)
+            return real
         return None
 
     def getattr(self, ctx, name):
